@@ -65,8 +65,11 @@ TEnabled == Is("enabled") /\ Step(\/ EnableInitOk \/ EnableUpdateOk \/ EnableFin
 TPhase == Is("phase") /\ Step(\/ SetFundedOk \/ SetRegisteringOk \/ SetRegisteredOk \/ SetWithdrawingOk)
 TRemoved == Is("removed") /\ phase = "Withdrawing" /\ l' = l + 1 /\ phase' = "Withdrawn" /\ UNCHANGED <<staging, current, adopted>>
 
+(* a persister call that repeats what is stored already (the projection is the model's state) is no machine step *)
+TRepeat == l <= Len(Log) /\ Line.ev \in {"staged", "sigadded", "enabled", "phase"} /\ Step(UNCHANGED vars)
+
 TInit == Init /\ l = 1
-TNext == TReset \/ TStaged \/ TSig \/ TEnabled \/ TPhase \/ TRemoved
+TNext == TReset \/ TStaged \/ TSig \/ TEnabled \/ TPhase \/ TRemoved \/ TRepeat
 TSpec == TInit /\ [][TNext]_tvars
 
 Mark == TLCSet(1, IF TLCGet(1) < l THEN l ELSE TLCGet(1))
